@@ -190,7 +190,14 @@ def lens_task(task):
                         tilts=False, catalogue=(idx % 5 == 1), conics=asph, coatings=(idx % 4 == 2),
                         curved_image=(idx % 3 == 1))
             optic, meta = G.random_lens(rnd, **opts)
+            if idx % 5 == 3:
+                # vignetting factors on a new outer field (and, by interpolation, on every field in between)
+                mfy = optic.fields.max_y_field
+                optic.add_field(y=mfy if mfy else 1.0, vx=rnd.uniform(0.05, 0.3), vy=rnd.uniform(0.05, 0.4))
+                meta["vignetting"] = True
             name = "seed %d %s" % (arg, {k: meta[k] for k in ("nsurf", "finite_object", "field_type", "mirror")})
+            if meta.get("vignetting"):
+                name += " +vignetting factors"
         else:
             optic = G.quiet({c.__name__: c for c in G.sample_classes()}[arg])
             name = arg
@@ -209,6 +216,10 @@ def lens_task(task):
     plan = lens_plan(rnd, wl, pi, quick, idx)
     if tag == "sample" and quick:
         plan = plan[1::2]         # the explicit-list half: one configuration of every class
+    if tag == "seed" and meta.get("vignetting"):
+        # with vignetting factors only the spot family is judged (its documented sample is the one
+        # Optic.trace launches; the references of the other families are explicit pupil points)
+        plan = [(k, c) for k, c in plan if k in ("SpotDiagram", "RmsSpotSizeVsField", "EncircledEnergy")]
     for kind, cfg in plan:
         ev, rep = run_config(optic, kind, cfg, info, wl, pi, seed=idx)
         nobj += 1
@@ -218,7 +229,7 @@ def lens_task(task):
         events += ev
         reports += [(c, cl, "%s: %s" % (name, t), {"lens": name, "analysis": kind, "cfg": _cfg_text(cfg)}) for c, cl, t in rep]
     try:
-        ev = AR.operand_events(optic, rnd, wl, pi, nops=3 if quick else 6)
+        ev = [] if (tag == "seed" and meta.get("vignetting")) else AR.operand_events(optic, rnd, wl, pi, nops=3 if quick else 6)
         for e in ev:
             e["lens"] = name
             e["cfg"] = ""
@@ -514,7 +525,7 @@ def main(ctx):
         raise T.MachineryError("calibration never exercised clause centroid")
     ctx.assumptions += [
         "the independently traced rays (Optic.trace_generic at the contract's fields, wavelengths and pupil samples) are data; their own correctness is C02/C03's business",
-        "pupil sample positions come from optiland.distribution (only their number and the fan grids are stated by the contract); no lens used has vignetting factors",
+        "pupil sample positions come from optiland.distribution (only their number and the fan grids are stated by the contract); on lenses with vignetting factors (one random lens in five) the spot family's reference rays are those Optic.trace launches for (field, wavelength, ray count, distribution name)",
         "tan certificates are validated against the degree-19 Taylor polynomials for |angle| <= 1 rad and trusted (libm) beyond; radians() by 180 theta = pi deg; 1/R by c R = 1",
         "the encircled-energy curve exists only inside EncircledEnergy.view(); it is obtained by performing view()'s calls with a recording axis object",
         "tolerances: 2^-44..2^-50 on sums and differences, 2^-30 on squared radii plus the float64 noise of centred coordinates, 2^-20 of (|offset| + last ray segment) between the parabasal focus and Coddington's (measured agreement 1e-8)",
